@@ -119,7 +119,7 @@ Lemma s_read_empty_eof n s d s1 : 0 < n -> s_read n s = (d, s1) -> d = [] -> s_a
 Proof.
   intros Hn. unfold s_read. destruct (n =? 0) eqn:E; [lia|].
   set (s0 := s_set_chunk_size n (s_tick s)).
-  intros H Hd; inversion H; subst; clear H.
+  intros H Hd0; subst d. inversion H as [[Hd Hs]]. clear H Hs.
   unfold s_at_eof. cbn [s_buf s_eof s_with].
   destruct (is_nil (s_buf s0) && negb (s_eof s0)) eqn:C.
   - apply andb_true_iff in C as [C1 C2]. apply is_nil_true in C1.
